@@ -314,10 +314,12 @@ class TextLines(Text):
         self.original_text = text
 
         self.whitespace_re = self.build_whitespace_re(config.whitespace)
+        # nameguard is implied by the EFFECTIVE namechars (not stored: a higher layer may override namechars)
         self.nameguard = (
-            config.nameguard
+            True if config.namechars
+            else config.nameguard
             if config.nameguard is not None
-            else bool(self.whitespace_re) or bool(config.namechars)
+            else bool(self.whitespace_re)
         )
         self._namechar_set = set(config.namechars or '')
 
